@@ -532,6 +532,11 @@ func registerIntrinsics(m *Machine) {
 		var v Value = st
 		return &v
 	}
+	// formatting an instant is never branched on by the code under test; the calendar
+	// arithmetic behind it is expensive for the solver, so the text is opaque
+	N["(time.Time).String"] = func(m *Machine, fr *Frame, a []Value) Value { return "<time>" }
+	N["(time.Time).GoString"] = func(m *Machine, fr *Frame, a []Value) Value { return "<time>" }
+	N["(time.Time).Format"] = func(m *Machine, fr *Frame, a []Value) Value { return "<time>" }
 	N["time.After"] = func(m *Machine, fr *Frame, a []Value) Value { return m.makeChan(1) }
 	N["(*time.Timer).Stop"] = func(m *Machine, fr *Frame, a []Value) Value { return TrueT }
 	N["(*time.Timer).Reset"] = func(m *Machine, fr *Frame, a []Value) Value { return TrueT }
